@@ -237,6 +237,8 @@ func (b *Built) build(s *Spec) (res error) {
 		return &UWrapFmtOld{S(0), c}
 	case "rwrapfull":
 		return &RWrapFull{S(0), c}
+	case "uhinter":
+		return &UWrapHinter{S(0), S(1), c}
 
 	// multi
 	case "join":
